@@ -28,6 +28,16 @@ CHECKS = {
         "note": NOTE_COMMON + " The tracer model is tied to taskgen.py by C01's correspondence.",
         "technique": "Coq invariant proof over all op sequences + vm_compute evaluation of wfb on implementation paths",
     },
+    "C12": {
+        "text": "13 theorems about a model of FilledGrid that is parametric in the underlying grid type and its operations: positions = sites of "
+                "the underlying grid minus vacancies; fill/vacate cumulative and root-preserving; shift/scale transform the root and keep the "
+                "vacancy set; views re-index the pattern for ALL index selections (repeated, reversed); repeat tiles it for any shape (exists- and "
+                "mod-form); equality iff same root and same vacancy set. Tied to the code by evaluating the model over an exact-rational Grid model "
+                "on every vacancy subset of small grids x a list of second operations and on random chains up to length 8; the property's "
+                "statements are also evaluated directly on the implementation, and kernel-level statements are compared with the methods.",
+        "note": NOTE_COMMON + " Floats are modelled by exact rationals; generators use dyadic values so both coincide. bloqade.geometry.Grid is modelled (GridQ), not verified.",
+        "technique": "Coq proofs over a parametric model + vm_compute correspondence over an exact-rational grid model",
+    },
     "C15": {
         "text": "A heap model makes Python aliasing explicit (mutable waypoint cells, reference lists, shallow copy, dirty state after failures). "
                 "Theorems over ALL histories from ANY starting state: each result, observed at any later time, equals the fresh-instance result; "
